@@ -118,3 +118,17 @@ pub fn tables(version: Version, ecl: ECL) -> [usize; 8] {
 pub fn cci_bits(version: Version, mode: Mode) -> usize {
     crate::hardcode::cci_bits(version, mode)
 }
+
+/// Applies `mask` to the encoding region of `qr`
+pub fn apply_mask(qr: &mut QRCode, mask: Mask) {
+    crate::datamasking::mask(qr, mask);
+}
+
+/// Bit container: pushes `(value, width)` pairs and returns the bytes and the bit length
+pub fn compact_push(items: &[(usize, usize)]) -> (Vec<u8>, usize) {
+    let mut c = CompactQR::new();
+    for &(value, width) in items {
+        c.push_bits(value, width);
+    }
+    (c.get_data().clone(), c.len())
+}
